@@ -519,8 +519,11 @@ impl Node {
         debug!("Validating and storing register {reg_addr:?}");
 
         // check if the Register is present locally
+        // (ask for the record itself rather than the store's index: the index only lists a record once
+        // its disk write has been acknowledged, and a copy arriving in between must be merged with the
+        // accepted version, not replace it)
         let key = NetworkAddress::from_register_address(*reg_addr).to_record_key();
-        let present_locally = self.network().is_record_key_present_locally(&key).await?;
+        let present_locally = self.network().get_local_record(&key).await?.is_some();
         let pretty_key = PrettyPrintRecordKey::from(&key);
 
         // check register and merge if needed
